@@ -1,5 +1,7 @@
 import CwPlus.Lemmas.Cw3Fixed
 import CwPlus.Lemmas.Cw3FixedAt
+import CwPlus.Lemmas.Cw3FixedNodup
+import CwPlus.Lemmas.Cw3CoreNodup
 /-!
 # C03 (cw3-fixed part) — a proposal's status equals the outcome its ballots imply
 
@@ -94,6 +96,54 @@ theorem rejected_executed_final {fuel : Nat} {w : World} (hr : Reachable fuel w)
   obtain ⟨p', hp', _, he⟩ := this.props id p hp
   refine ⟨p', hp', ?_⟩
   rcases hs with hs | hs <;> rw [hs] at he <;> cases hs' : p'.status <;> simp_all [edge]
+
+/-! ## the listings report the same status -/
+
+theorem mem_pageDesc {κ ν : Type} (lt : κ → κ → Bool) (xs : List (κ × ν)) (before : Option κ) (limit : Option Nat)
+    {x : κ × ν} (h : x ∈ Cw3Core.pageDesc lt xs before limit) : x ∈ xs := by
+  unfold Cw3Core.pageDesc at h
+  have h1 := List.mem_of_mem_take h
+  rw [List.mem_reverse] at h1
+  cases before with
+  | none => exact h1
+  | some c => exact (List.mem_filter.mp h1).1
+
+/-- Every entry of a successful `viewAll` over stored proposals is the view of a stored proposal, with its
+`current_status` at the query block. -/
+theorem listed_status_core {c : Core} (hn : AMap.NodupKeys c.proposals) {blk : Block} {l : List (Nat × Proposal)}
+    (hsub : ∀ x ∈ l, x ∈ c.proposals) {vs : List ProposalView} (h : viewAll blk l = .ok vs) :
+    ∀ v ∈ vs, ∃ p, c.proposals.get? v.id = some p ∧ p.currentStatus blk = .ok v.status := by
+  obtain ⟨hall, rfl⟩ := viewAll_ok_all h
+  intro v hv
+  obtain ⟨x, hx, rfl⟩ := List.mem_map.mp hv
+  obtain ⟨st, hst⟩ := hall x hx
+  refine ⟨x.2, AMap.get?_of_mem_nodup hn (hsub x hx), ?_⟩
+  simp only [viewD, hst]
+
+open Paginate in
+/-- Both proposal listings, over any core whose proposal map has one entry per id. -/
+theorem listings_status_core {c : Core} (hn : AMap.NodupKeys c.proposals) (blk : Block) (cur limit : Option Nat)
+    {vs : List ProposalView}
+    (h : Cw3Core.listProposals c blk cur limit = .ok vs ∨ Cw3Core.reverseProposals c blk cur limit = .ok vs) :
+    ∀ v ∈ vs, ∃ p, c.proposals.get? v.id = some p ∧ p.currentStatus blk = .ok v.status := by
+  rcases h with h | h
+  · exact listed_status_core hn (fun x hx => mem_sortedEntries.mp ((page_sublist _ _ _ _).subset hx)) h
+  · exact listed_status_core hn (fun x hx => mem_sortedEntries.mp (mem_pageDesc _ _ _ _ hx)) h
+
+/-- **C03 for the list queries** (`ListProposals`, `ReverseProposals`): in every reachable state, whenever a listing
+answers, every listed entry is a stored proposal under its id and the status listed for it is — exactly as for the point
+query, `status_eq_outcome` — the `Outcome` of its recorded ballots at the query block if it is stored Open, and the
+stored status otherwise. -/
+theorem listed_status_eq_outcome {fuel : Nat} {w : World} (hr : Reachable fuel w) (blk : Block) (cur limit : Option Nat)
+    {vs : List ProposalView}
+    (h : Cw3Fixed.listProposals w.ms blk cur limit = .ok vs ∨ Cw3Fixed.reverseProposals w.ms blk cur limit = .ok vs) :
+    ∀ v ∈ vs, ∃ p, w.ms.core.proposals.get? v.id = some p ∧
+      (Except.ok v.status : Res Status) =
+        if p.status = .open then Outcome p (ballotsOf w.ms.core v.id) blk else .ok p.status := by
+  intro v hv
+  obtain ⟨p, hp, hst⟩ := listings_status_core (Cw3Fixed.reachable_nodup hr) blk cur limit h v hv
+  refine ⟨p, hp, ?_⟩
+  rw [← status_eq_outcome hr hp blk, query_status _ _ _ _ hp, hst]
 
 /-! ## Execute and Close are admitted by the same status -/
 
@@ -631,6 +681,138 @@ theorem rejected_when_stored {s s' : State} {b : Block} {snd : Addr} {m : ExecMs
   have hst := propStep_stores_rejected (coreStep_prop hi.wf (execute_coreStep h) hp') hs hnew
   exact rejected_hopeless (t := openT p') rfl (premise_of_inv (execute_inv hi h) hp') hst
 
+/-! ## Execute succeeds ⇒ the Yes share meets the threshold in exact arithmetic -/
+
+/-- What an `Outcome` of Passed means in exact arithmetic, inside the premise of C04: positive Yes weight, the
+documented rule certain with at most one vote of slack (18-digit thresholds), and certain exactly for thresholds with at
+most 9 decimals. -/
+theorem outcome_passed_exact {p : Proposal} {bs : AMap Addr Ballot} {blk : Block}
+    (hprem : C04.Premise (ballotTally p bs)) (h : Outcome p bs blk = .ok .passed) :
+    0 < sumK .yes bs ∧
+    CertainBy C04.laxPasses p.threshold p.totalWeight (tallyOf bs) (p.expires.isExpired blk) ∧
+    (C04.nineDecimals p.threshold →
+      CertainBy C04.exactPasses p.threshold p.totalWeight (tallyOf bs) (p.expires.isExpired blk)) := by
+  have hp : Cw3.isPassed (ballotTally p bs) blk = .ok true := by
+    rcases outcome_cases h with ⟨hp, _⟩ | ⟨_, rej, _, ⟨_, hx⟩ | ⟨_, hx⟩⟩
+    · exact hp
+    · cases hx
+    · cases hx
+  exact ⟨C04.passed_needs_yes hp, (isPassed_certain18 hprem blk).2 hp,
+    fun h9 => (isPassed_iff_certain9 (t := ballotTally p bs) hprem h9 blk).mp hp⟩
+
+/-- **C03 "never executable with a Yes share below its threshold", exact arithmetic** (clause g, composition of
+`executable_implies_outcome_passed` with C04).  On every history whose blocks never go back, whenever Execute succeeds
+(at the block of the last operation or later, by anybody): the recorded Yes weight is positive and the configured
+count / percentage / quorum rule holds for the recorded ballots in exact cross-multiplied integer arithmetic — for
+every completion of the outstanding votes before expiry, for the recorded ballots themselves after — exactly for
+thresholds with at most 9 decimals, and with at most one vote of slack (`C04.laxPasses`) for 18-digit decimals. -/
+theorem execute_ok_implies_exact_threshold {fuel : Nat} {w : World} {b : Block} (hr : ReachableAt fuel w b)
+    {b' : Block} (hb : blockLe b b') {snd : Addr} {id : Nat}
+    (h : (execute w.ms b' snd (.execute id)).isOk = true) :
+    ∃ p, w.ms.core.proposals.get? id = some p ∧ 0 < sumK .yes (ballotsOf w.ms.core id) ∧
+      CertainBy C04.laxPasses p.threshold p.totalWeight (tallyOf (ballotsOf w.ms.core id)) (p.expires.isExpired b') ∧
+      (C04.nineDecimals p.threshold →
+        CertainBy C04.exactPasses p.threshold p.totalWeight (tallyOf (ballotsOf w.ms.core id)) (p.expires.isExpired b')) := by
+  obtain ⟨p, hp, hout⟩ := executable_implies_outcome_passed hr hb h
+  exact ⟨p, hp, outcome_passed_exact (premise_ballotTally hr.reachable hp) hout⟩
+
+/-- The same for a stored Passed (`passed_justified` read in exact arithmetic): the sticky status is backed by the
+exact rule on the currently recorded ballots at the block of the last operation and at every later block. -/
+theorem passed_justified_exact {fuel : Nat} {w : World} {b : Block} (hr : ReachableAt fuel w b) {id : Nat} {p : Proposal}
+    (hp : w.ms.core.proposals.get? id = some p) (hs : p.status = .passed) {b' : Block} (hb : blockLe b b') :
+    0 < sumK .yes (ballotsOf w.ms.core id) ∧
+    CertainBy C04.laxPasses p.threshold p.totalWeight (tallyOf (ballotsOf w.ms.core id)) (p.expires.isExpired b') ∧
+    (C04.nineDecimals p.threshold →
+      CertainBy C04.exactPasses p.threshold p.totalWeight (tallyOf (ballotsOf w.ms.core id)) (p.expires.isExpired b')) :=
+  outcome_passed_exact (premise_ballotTally hr.reachable hp) (passed_justified hr hp hs hb)
+
+/-! ## the admit-iff theorems for every state satisfying `Inv` (hence also mid-dispatch, for re-entrant self-calls) -/
+
+/-- `tally_eq_ballotTally` from the invariant alone. -/
+theorem tally_eq_ballotTally_inv {s : State} (hi : Inv s) {id : Nat} {p : Proposal}
+    (hp : s.core.proposals.get? id = some p) (ho : p.status = .open) :
+    p.tally = ballotTally p (ballotsOf s.core id) := by
+  have := hi.wf.tally id p hp
+  simp [Proposal.tally, ballotTally, ho, this]
+
+/-- **Execute is admitted iff Passed, for every state satisfying `Inv`** — in particular for the intermediate states
+inside `dispatch` (`dispatch` preserves `Inv`), so the statement also covers `selfExecute` messages of a proposal that
+is being executed. -/
+theorem execute_admits_iff_outcome_inv {s : State} (hi : Inv s) (blk : Block) (snd : Addr) (id : Nat) :
+    (execute s blk snd (.execute id)).isOk = true ↔
+      ∃ p, s.core.proposals.get? id = some p ∧
+        (p.status = .passed ∨ (p.status = .open ∧ Outcome p (ballotsOf s.core id) blk = .ok .passed)) := by
+  constructor
+  · intro h
+    cases hx : execute s blk snd (.execute id) with
+    | error e => rw [hx] at h; cases h
+    | ok r =>
+      obtain ⟨s', out⟩ := r
+      obtain ⟨_, _, hc⟩ := execute_cases hx
+      rcases hc with ⟨_, _, _, _, _, _, hm, _⟩ | ⟨_, _, hm, _⟩ | ⟨id', hm, he⟩ | ⟨_, hm, _⟩ <;> cases hm
+      obtain ⟨p, hp, hst, _⟩ := execute_spec he
+      refine ⟨p, hp, ?_⟩
+      by_cases ho : p.status = .open
+      · right; refine ⟨ho, ?_⟩
+        simp only [Outcome, ← tally_eq_ballotTally_inv hi hp ho]; exact hst
+      · left
+        have : p.currentStatus blk = .ok p.status := cs_of_ne_open (t := p.tally) ho
+        rw [this] at hst; simpa using hst
+  · rintro ⟨p, hp, hs | ⟨ho, hout⟩⟩
+    · have : p.currentStatus blk = .ok .passed := by
+        have h2 : p.currentStatus blk = .ok p.status := cs_of_ne_open (t := p.tally) (by simp [Proposal.tally, hs])
+        rw [hs] at h2; exact h2
+      simp [Cw3Fixed.execute, execExecute, Cw3Core.execute, load, hp, this, bind, Except.bind, check, pure, Except.pure, Res.isOk]
+    · have : p.currentStatus blk = .ok .passed := by
+        simp only [Outcome, ← tally_eq_ballotTally_inv hi hp ho] at hout; exact hout
+      simp [Cw3Fixed.execute, execExecute, Cw3Core.execute, load, hp, this, bind, Except.bind, check, pure, Except.pure, Res.isOk]
+
+/-- **Close is admitted iff expired and not Passed, for every state satisfying `Inv`** (also mid-dispatch, for
+`selfClose` messages). -/
+theorem close_admits_iff_outcome_inv {s : State} (hi : Inv s) (blk : Block) (snd : Addr) (id : Nat) :
+    (execute s blk snd (.close id)).isOk = true ↔
+      ∃ p, s.core.proposals.get? id = some p ∧ p.status = .open ∧ p.expires.isExpired blk = true ∧
+        Outcome p (ballotsOf s.core id) blk = .ok .rejected := by
+  constructor
+  · intro h
+    cases hx : execute s blk snd (.close id) with
+    | error e => rw [hx] at h; cases h
+    | ok r =>
+      obtain ⟨s', out⟩ := r
+      obtain ⟨_, _, hc⟩ := execute_cases hx
+      rcases hc with ⟨_, _, _, _, _, _, hm, _⟩ | ⟨_, _, hm, _⟩ | ⟨_, hm, _⟩ | ⟨id', hm, _, hcl⟩ <;> cases hm
+      obtain ⟨p, st, hp, h1, h2, h3, hst, hne, hexp, _⟩ := close_spec hcl
+      have h4 := hi.wf.notPending id p hp
+      have ho : p.status = .open := by cases hs : p.status <;> simp_all
+      refine ⟨p, hp, ho, hexp, ?_⟩
+      simp only [Outcome, ← tally_eq_ballotTally_inv hi hp ho]
+      have hst' : Cw3.currentStatus p.tally blk = .ok st := hst
+      rcases cs_of_open (t := p.tally) (by simp [Proposal.tally, ho]) hst' with ⟨_, rfl⟩ | ⟨_, rej, _, ⟨_, rfl⟩ | ⟨⟨_, hne'⟩, rfl⟩⟩
+      · exact absurd rfl hne
+      · exact hst'
+      · simp [Proposal.tally] at hne'; rw [hexp] at hne'; cases hne'
+  · rintro ⟨p, hp, ho, hexp, hout⟩
+    have hst : p.currentStatus blk = .ok .rejected := by
+      simp only [Outcome, ← tally_eq_ballotTally_inv hi hp ho] at hout; exact hout
+    simp [Cw3Fixed.execute, execClose, Cw3Core.close, load, hp, hst, ho, hexp, bind, Except.bind, check, pure, Except.pure, Res.isOk]
+
+/-- **Never executable without Yes weight, for every state satisfying `YesInv`** (`yes_step`: every handler call
+preserves `YesInv`, so it holds mid-dispatch too). -/
+theorem never_executable_without_yes_inv {s : State} (hy : YesInv s) {blk : Block} {snd : Addr} {id : Nat}
+    (h : (execute s blk snd (.execute id)).isOk = true) : 0 < sumK .yes (ballotsOf s.core id) := by
+  obtain ⟨hi, hy⟩ := hy
+  cases hx : execute s blk snd (.execute id) with
+  | error e => rw [hx] at h; cases h
+  | ok r =>
+    obtain ⟨s', out⟩ := r
+    obtain ⟨_, _, hc⟩ := execute_cases hx
+    rcases hc with ⟨_, _, _, _, _, _, hm, _⟩ | ⟨_, _, hm, _⟩ | ⟨id', hm, he⟩ | ⟨_, hm, _⟩ <;> cases hm
+    obtain ⟨p, hp, hst, _⟩ := execute_spec he
+    have := cs_passed_yes (t := p.tally) hst (Or.inl rfl) (fun h => hy id p hp h)
+    have ht := hi.wf.tally id p hp
+    simp only [Proposal.tally, ht, tallyOf] at this
+    exact this
+
 /-! ## non-vacuity -/
 
 /-- voters a:1, b:1, z:0; 51 % of the (non-abstaining) total -/
@@ -714,5 +896,30 @@ example :
     (Expiration.atHeight 111).isExpired ⟨102, 1010⟩ = false ∧
     C04.libPasses exqInst.threshold 9 (C04.plus ⟨3, 5, 0, 0⟩ ⟨1, 0, 0, 0⟩) = false := by
   decide
+
+/-- non-vacuity of `execute_ok_implies_exact_threshold` / `passed_justified_exact`: in the `ReachableAt` world of
+`exPassOps` (a:1 yes, b:1 yes on 51 %, stored Passed) Execute succeeds at a later block -/
+example : (execute (run 10 exWorld exPassOps).ms ⟨105, 1005⟩ "x" (.execute 1)).isOk = true ∧
+    blockLe ⟨101, 1005⟩ ⟨105, 1005⟩ ∧ C04.nineDecimals exInst.threshold :=
+  ⟨by decide, ⟨by decide, by decide⟩, ⟨510000000, by decide⟩⟩
+
+/-- non-vacuity of the `…_inv` forms: the state of `exqOps` satisfies `Inv` and `YesInv`, proposal 1 is admitted for
+Execute after expiry and not for Close -/
+example : Inv (run 10 exqWorld exqOps).ms ∧ YesInv (run 10 exqWorld exqOps).ms ∧
+    (execute (run 10 exqWorld exqOps).ms ⟨110, 1010⟩ "x" (.execute 1)).isOk = true ∧
+    (execute (run 10 exqWorld exqOps).ms ⟨110, 1010⟩ "x" (.close 1)).isOk = false :=
+  ⟨reachable_inv ⟨exqInst, exqState, "ms", [], true, exqOps, rfl, rfl⟩,
+   reachable_yes ⟨exqInst, exqState, "ms", [], true, exqOps, rfl, rfl⟩, by decide, by decide⟩
+
+/-- non-vacuity of `listed_status_eq_outcome`: in the reachable world of `exqOps` the listing answers (inside `Inv` no
+listed proposal can fail to have a status: C04 `no_panic`) -/
+example : ∃ vs, Cw3Fixed.listProposals (run 10 exqWorld exqOps).ms ⟨110, 1010⟩ none none = .ok vs := by
+  have hr : Reachable 10 (run 10 exqWorld exqOps) := ⟨exqInst, exqState, "ms", [], true, exqOps, rfl, rfl⟩
+  refine ⟨_, viewAll_eq_map (fun x hx => ?_)⟩
+  have hm : x ∈ (run 10 exqWorld exqOps).ms.core.proposals :=
+    Paginate.mem_sortedEntries.mp ((Paginate.page_sublist _ _ _ _).subset hx)
+  have hp := AMap.get?_of_mem_nodup (Cw3Fixed.reachable_nodup hr) hm
+  have hprem := premise_of_inv (reachable_inv hr) hp
+  exact (C04.no_panic (p := x.2.tally) ⟨hprem.tally_le, hprem.total_u64, hprem.valid⟩ _).2.2
 
 end CwPlus.Props.C03
